@@ -40,7 +40,7 @@ def worlds(n, keyopts="{1}", anchors="{{1}}"):
     return WOD.replace("@N", str(n)).replace("@KO", keyopts).replace("@AS", anchors)
 
 
-ALLQ = '{"pos", "nodata", "nx"}'
+ALLQ = "QueryKinds"
 SECURE3 = '{[n |-> 3, signed |-> <<TRUE, TRUE, TRUE>>, link |-> <<"none", "ds", "ds">>, keys |-> <<1, 1, 1>>, anchors |-> {1}]}'
 ISLAND3 = '{[n |-> 3, signed |-> <<TRUE, TRUE, TRUE>>, link |-> <<"none", "ds", "nods">>, keys |-> <<1, 1, 1>>, anchors |-> {1}]}'
 UNSUP3 = '{[n |-> 3, signed |-> <<TRUE, TRUE, FALSE>>, link |-> <<"none", "ds", "dsunsup">>, keys |-> <<1, 1, 1>>, anchors |-> {1}]}'
@@ -63,7 +63,7 @@ GEN_THOROUGH = [
 MC_QUICK = ["MC_Chain", "MC_Chain_keys"]
 MC_THOROUGH = ["MC_Chain", "MC_Chain_keys", "MC_Chain_keys3", "MC_Chain_deep", "MC_Chain_two"]
 WITNESSES = [("MC_Chain_witness1", "NeverSecure"), ("MC_Chain_witness2", "NeverInsecure"), ("MC_Chain_witness3", "NeverAD")]
-ITEMS = ("data", "inj", "soa", "nsecq", "nsecw")
+ITEMS = ("data", "cname", "inj", "soa", "nsecq", "nsecw")
 
 
 def kind(f):
@@ -120,7 +120,7 @@ def classify(what, item, c):
               "faults": "+".join(sorted(kind(f) for f in faults)) or "none"}
     for f in faults:
         fields[kind(f)] = True
-        if f["op"].startswith("forge") or f["op"] in ("swapKey", "childSide"):
+        if f["op"].startswith("forge") or f["op"] in ("swapKey", "childSide", "wildSub", "reorder", "foreignDs"):
             fields["op:" + f["op"]] = True
     if what in ("secure-not-allowed", "neg-secure-not-allowed", "ad-not-allowed"):
         if item is not None and item not in ITEMS:
